@@ -1263,6 +1263,48 @@ impl Prop for C19 {
         tier.pick(1500, 10_000)
     }
     fn run(&self, case: &Case, st: &mut CaseStats, ctx: &Ctx) -> Result<(), Violation> {
+        // Size boundary (once per process): messages whose encoding is just below, at and just
+        // above half and the whole of the documented maximum (128 KiB, inclusive) survive the wire.
+        static BOUNDARY: std::sync::Once = std::sync::Once::new();
+        let mut boundary_violation: Option<Violation> = None;
+        BOUNDARY.call_once(|| {
+            use vls_protocol::msgs;
+            use vls_protocol::serde_bolt::LargeOctets;
+            let mk = |n: usize| {
+                let header: bitcoin::block::Header = bitcoin::consensus::deserialize(&[0u8; 80]).expect("header");
+                msgs::Message::RemoveBlock(msgs::RemoveBlock {
+                    unspent_proof: Some(LargeOctets(vec![0xab; n])),
+                    prev_block_header: header,
+                    prev_filter_header: bitcoin::hash_types::FilterHeader::all_zeros(),
+                })
+            };
+            let overhead = mk(0).inner().as_vec().len();
+            for total in [65_535usize, 65_536, 65_537, MAX_MESSAGE_SIZE - 1, MAX_MESSAGE_SIZE] {
+                let m = mk(total - overhead);
+                let bytes = m.inner().as_vec();
+                assert_eq!(bytes.len(), total, "harness: size arithmetic");
+                st.class(format!("size-boundary:{}", total));
+                match guard(|| msgs::from_vec(bytes.clone())) {
+                    Ok(Ok(m2)) => {
+                        if m2.inner().as_vec() != bytes {
+                            boundary_violation = Some(Violation::new("C19:size-boundary:re-encoding-differs", format!("a RemoveBlock of {} bytes re-encodes differently", total)));
+                        }
+                    }
+                    Ok(Err(e)) => {
+                        boundary_violation = Some(Violation::new("C19:size-boundary:decode-failed", format!("from_vec(as_vec(m)) = Err({:?}) for a RemoveBlock whose encoding is {} bytes (maximum {})", e, total, MAX_MESSAGE_SIZE)));
+                    }
+                    Err(p) => {
+                        boundary_violation = Some(Violation::new("C19:size-boundary:decode-panic", format!("decoding a {} byte message panicked: {}", total, p)));
+                    }
+                }
+                if boundary_violation.is_some() {
+                    break;
+                }
+            }
+        });
+        if let Some(v) = boundary_violation {
+            return ctx.report(st, v);
+        }
         let idx = registry_index(&case.msg);
         let e = &REGISTRY[idx];
         let m = gen::build_message(idx, &case.v);
